@@ -542,6 +542,8 @@ class OfflineDiscrete(object):
     def finish(self, v):
         if v is None:
             raise Unknown('returned name is not bound by a recognised idiom')
+        if v[0] == 'LAZY':
+            return ('lazy', self.finish(v[1]))
         if v[0] == 'LIST':
             return ('pointwise', v[1])
         if v[0] == 'SCANP':
@@ -555,6 +557,10 @@ class OfflineDiscrete(object):
 
     def list_expr(self, v):
         env = self.env
+        if isinstance(v, ast.GeneratorExp):
+            # the same values, but as a one-shot iterator: not what the other handlers can take len() / slices / reversed() of
+            inner = self.list_expr(ast.copy_location(ast.ListComp(elt=v.elt, generators=v.generators), v))
+            return None if inner is None else ('LAZY', inner)
         if isinstance(v, ast.ListComp) and len(v.generators) == 1 and not v.generators[0].ifs:
             g = v.generators[0]
             loc = dict(env)
